@@ -254,3 +254,88 @@ func c02BloomTwin(c *core.Ctx, r *core.Report) {
 	}
 	r.Floor("BLOOMTWIN", "original-form bloom insertions", n, 3)
 }
+
+// (12) NEGDICT — for a negated match filter the record-level pass is the second of two passes over the block: the
+// dictionary pass has already marked (positively) the records whose dictionary-encoded columns contain the term.
+// A record may therefore be added as a hit of the negated filter only where the dictionary pass's mark for it
+// (blockHelper.DoesRecordMatch) is known to be absent — otherwise `NOT word` keeps every event whose occurrence of
+// the word sits in a dictionary-encoded column, and `word` and `NOT word` overlap.  On every path from the edge on
+// which NegateMatch is true to an AddMatchedRecord call, that call lies where DoesRecordMatch is known false.
+func c02NegationAndDictionaryPass(c *core.Ctx, r *core.Report) {
+	fn := c.Fn("pkg/segment/search", "filterRecordsFromSearchQuery")
+	negF := c.Field(pkgStructs, "MatchFilter.NegateMatch")
+	add := c.Obj("pkg/segment/structs", "BlockSearchHelper.AddMatchedRecord")
+	does := c.Obj("pkg/segment/structs", "BlockSearchHelper.DoesRecordMatch")
+	// edges on which the flag is true
+	var starts []*ssa.BasicBlock
+	for _, b := range fn.Blocks {
+		ifi, ok := core.LastIf(b)
+		if !ok {
+			continue
+		}
+		cond, neg := ifi.Cond, false
+		if u, ok := cond.(*ssa.UnOp); ok && u.Op == token.NOT {
+			cond, neg = u.X, true
+		}
+		ld, ok := cond.(*ssa.UnOp)
+		if !ok {
+			continue
+		}
+		fa, ok := ld.X.(*ssa.FieldAddr)
+		if !ok || core.FieldOfAddr(fa) != negF {
+			continue
+		}
+		if neg {
+			starts = append(starts, b.Succs[1])
+		} else {
+			starts = append(starts, b.Succs[0])
+		}
+	}
+	r.Floor("GUARD", "tests of NegateMatch in filterRecordsFromSearchQuery", len(starts), 1)
+	dcalls := callsTo(fn, does)
+	n := 0
+	seen := map[*ssa.BasicBlock]bool{}
+	var work []*ssa.BasicBlock
+	for _, s := range starts {
+		if !seen[s] {
+			seen[s] = true
+			work = append(work, s)
+		}
+	}
+	reported := map[ssa.Instruction]bool{}
+	// the flag does not change during the scan of a block: the walk stays inside one iteration of the record loop
+	loops := core.Loops(fn)
+	for _, s := range starts {
+		if lp := core.InnermostLoop(loops, s); lp != nil {
+			seen[lp.Header] = true
+		}
+	}
+	for len(work) > 0 {
+		b := work[len(work)-1]
+		work = work[:len(work)-1]
+		for _, in := range b.Instrs {
+			ci, ok := in.(ssa.CallInstruction)
+			if !ok || !core.IsCallTo(ci, add) || reported[in] {
+				continue
+			}
+			reported[in] = true
+			n++
+			ok = false
+			for _, d := range dcalls {
+				if core.BoolKnownAt(d, b) == core.No {
+					ok = true
+				}
+			}
+			r.Check(ok, "GUARD", fmt.Sprintf("%s:negated-hit#%d-only-where-the-dictionary-pass-found-nothing", shortFn(fn), n), c.Pos(in.Pos()),
+				"the record is added under a negated filter only where DoesRecordMatch is known false",
+				"with a negated match filter a record is added as a hit without knowing that the dictionary pass left it unmarked: events whose occurrence of the term sits in a dictionary-encoded column satisfy both `term` and `NOT term`")
+		}
+		for _, s := range b.Succs {
+			if !seen[s] {
+				seen[s] = true
+				work = append(work, s)
+			}
+		}
+	}
+	r.Floor("GUARD", "hits added on paths where the filter is negated", n, 1)
+}
